@@ -319,6 +319,7 @@ func genC09(c *Ctx) {
 		b.Close()
 		c.emit(line, "*", true)
 	}
+	genC09tag(c, 500000)
 	// an unbounded number of calls over one connection: more calls than there are tags
 	for k := 0; k < c.scale(1, 3) && !c.stop(); k++ {
 		i++
@@ -366,6 +367,114 @@ func genC09(c *Ctx) {
 		a.Close()
 		b.Close()
 		close(p.reqs)
+		c.emit(line, "*", true)
+	}
+}
+
+// tagMix: the pipelining helper (Tag) and ordinary calls on one connection. A Tag keeps one tag
+// for all its requests; ordinary calls made meanwhile — also after requests of the Tag have been
+// completed and freed — must use other tags and get their own replies.
+func genC09tag(c *Ctx, i0 int) {
+	i := i0
+	for k := 0; k < c.scale(40, 800) && !c.stop(); k++ {
+		i++
+		r := c.rng(i)
+		msize := []uint32{512, 8192}[r.Intn(2)]
+		line := fmt.Sprintf("clntjudge C09 tagmix seed=%d msize=%d", i, msize)
+		c.begin(line)
+		a, b := net.Pipe()
+		p := newPeer(b, msize)
+		cl, err := g.Connect(pconn{a}, msize, true)
+		if err != nil {
+			c.oracleFail("C09/connect", err.Error(), line)
+			continue
+		}
+		done := make(chan *g.Req, 64)
+		tag := cl.TagAlloc(done)
+		fid := &g.Fid{Clnt: cl, Fid: 5}
+		failed := false
+		fail := func(sig, msg string) {
+			if !failed {
+				c.oracleFail(sig, msg, line)
+			}
+			failed = true
+		}
+		next := 0
+		// a few pipelined reads, completed and freed one by one
+		warm := 1 + r.Intn(4)
+		for j := 0; j < warm && !failed; j++ {
+			tag.Read(fid, uint64(next), 1000)
+			select {
+			case q := <-p.reqs:
+				b.Write(reply("ok", q, msize))
+			case <-time.After(5 * time.Second):
+				fail("C09/requests-missing", "peer did not see the pipelined request")
+			}
+			select {
+			case rq := <-done:
+				if rq.Rc == nil || !bytes.Equal(rq.Rc.Data, payloadOf(next, msize)) {
+					fail("C09/own-reply/tag", fmt.Sprintf("pipelined read %d got the wrong data", next))
+				}
+				tag.ReqFree(rq)
+			case <-time.After(5 * time.Second):
+				fail("C09/hang", "pipelined request never completed")
+			}
+			next++
+		}
+		// now one pipelined read stays outstanding while ordinary calls are made
+		tag.Read(fid, uint64(next), 1000)
+		pipeCaller := next
+		next++
+		var outstanding []peerReq
+		select {
+		case q := <-p.reqs:
+			outstanding = append(outstanding, q)
+		case <-time.After(5 * time.Second):
+			fail("C09/requests-missing", "peer did not see the pipelined request")
+		}
+		K := 1 + r.Intn(5)
+		wg, res := startCallersFrom(cl, next, K)
+		for len(outstanding) < K+1 && !failed {
+			select {
+			case q := <-p.reqs:
+				for _, o := range outstanding {
+					if o.tag == q.tag {
+						fail("C09/duplicate-tag", fmt.Sprintf("tag %d used by two outstanding requests (a pipelined one and an ordinary call, or two calls)", q.tag))
+					}
+				}
+				outstanding = append(outstanding, q)
+			case <-time.After(5 * time.Second):
+				fail("C09/requests-missing", fmt.Sprintf("peer saw %d of %d requests", len(outstanding), K+1))
+			}
+		}
+		if !failed {
+			// answered in a random order
+			for _, idx := range r.Perm(len(outstanding)) {
+				b.Write(reply("ok", outstanding[idx], msize))
+			}
+			if !waitWG(wg, 10*time.Second) {
+				fail("C09/hang", "ordinary calls made next to a pipelined request did not return")
+			} else {
+				for j := 0; j < K; j++ {
+					if msg := checkResult("ok", next+j, res[j], msize); msg != "" {
+						fail("C09/own-reply/ok", msg)
+					}
+				}
+			}
+			select {
+			case rq := <-done:
+				if rq.Rc == nil || !bytes.Equal(rq.Rc.Data, payloadOf(pipeCaller, msize)) {
+					fail("C09/own-reply/tag", "the pipelined read got another request's data")
+				}
+				tag.ReqFree(rq)
+			case <-time.After(5 * time.Second):
+				fail("C09/hang", "pipelined request never completed")
+			}
+		}
+		c.count("tagmix")
+		cl.Unmount()
+		a.Close()
+		b.Close()
 		c.emit(line, "*", true)
 	}
 }
